@@ -82,6 +82,13 @@ func VerifBypassPools() bool { return getg().bubble != nil && !verifPoolsOn }
 // VerifGoid returns the calling goroutine's id.
 func VerifGoid() uint64 { return getg().goid }
 
+// verifForeign counts events of goroutines outside the bubble while a run is active:
+// [0] goroutines created, [1] goroutines made runnable, [2] preemptions of a bubble goroutine.
+var verifForeign [3]uint64
+
+// VerifForeign returns the counters of non-bubble scheduler events seen during runs (debugging aid).
+func VerifForeign() [3]uint64 { return verifForeign }
+
 var verifDraws uint64
 
 // VerifDraws returns how many values were drawn from the seeded stream (debugging aid).
@@ -208,13 +215,29 @@ PATCHES["runtime/proc.go"] = [
     ("\t\tnewg.bubble = callergp.bubble\n",
      "\t\tnewg.bubble = callergp.bubble\n\t\tnewg.verifB = 0\n\t\tif verifStateA != 0 && callergp.bubble != nil {\n\t\t\tnewg.verifB = verifSplit(callergp)\n\t\t}\n"),
     ("const forcePreemptNS = 10 * 1000 * 1000 // 10ms", "const forcePreemptNS = 3600 * 1000 * 1000 * 1000 // verif: 1h"),
+    # sysmon preempts the goroutine of a P whose scheduling tick has not moved since
+    # sysmon last wrote it down more than forcePreemptNS ago. VerifSeed resets the tick
+    # at the start of every run, so an old note (or the initial one: tick 0 at time 0)
+    # can match by accident, and the preempted goroutine goes to the global queue: one
+    # process in about 3000 ordered two runnable goroutines differently in one run.
+    # No time-slice preemption at all during a simulated run.
+    ("\t\t} else if pd.schedwhen+forcePreemptNS <= now {\n",
+     "\t\t} else if verifStateA == 0 && pd.schedwhen+forcePreemptNS <= now {\n"),
     # A goroutine of the runtime itself (scavenger, sweeper, finalizer and cleanup
     # goroutines, real timers) that becomes runnable during a simulated run must not
     # take the "run next" slot: that would push the bubble goroutine sitting there to the
     # tail of the run queue and change the order of the simulated goroutines depending on
     # wall-clock events.
     ("\trunqput(mp.p.ptr(), gp, next)\n\twakep()\n\treleasem(mp)\n}\n",
-     "\tif verifStateA != 0 && gp.bubble == nil {\n\t\tnext = false\n\t}\n\trunqput(mp.p.ptr(), gp, next)\n\twakep()\n\treleasem(mp)\n}\n"),
+     "\tif verifStateA != 0 && gp.bubble == nil {\n\t\tnext = false\n\t\tverifForeign[1]++\n\t}\n\trunqput(mp.p.ptr(), gp, next)\n\twakep()\n\treleasem(mp)\n}\n"),
+    # the same for a goroutine created outside the bubble during a run (cleanup and
+    # finalizer goroutines are created on demand by whoever registers a cleanup; the
+    # test binary's own goroutines)
+    ("\t\tpp := getg().m.p.ptr()\n\t\trunqput(pp, newg, true)\n\n\t\tif mainStarted {\n",
+     "\t\tpp := getg().m.p.ptr()\n\t\tif verifStateA != 0 && newg.bubble == nil {\n\t\t\tverifForeign[0]++\n\t\t\trunqput(pp, newg, false)\n\t\t} else {\n\t\t\trunqput(pp, newg, true)\n\t\t}\n\n\t\tif mainStarted {\n"),
+    # preemption of a bubble goroutine (counted only; it goes to the global queue)
+    ("\tdropg()\n\tif preempted && sched.gcwaiting.Load() {\n",
+     "\tdropg()\n\tif preempted && verifStateA != 0 && gp.bubble != nil {\n\t\tverifForeign[2]++\n\t}\n\tif preempted && sched.gcwaiting.Load() {\n"),
     # sysmon takes the P away from a goroutine that sits in a system call for more than
     # a tick (20 us .. 10 ms, wall-clock) when other goroutines are runnable, and the
     # goroutine then comes back through the global queue: which goroutine runs next
